@@ -191,10 +191,10 @@ template<class F> inline int guarded_call(F f){ g_fault_sig=0; if(sigsetjmp(g_jm
 struct MemEv { char kind; long id; long long size; int ok; long oldid; };
 struct RecMM {
   UriMemoryManager mm; std::vector<MemEv> log; std::map<void*,std::pair<long,size_t>> live; long nextid=1; long reqs=0;
-  long failAt=0; bool failFrom=false;     // fail the failAt-th request (1-based); failFrom: and all later ones
+  long failAt=0; bool failFrom=false; long refused=0;     // fail the failAt-th request (1-based); failFrom: and all later ones
   bool bad=false;                          // unknown/double free seen
   RecMM(); void reset(){ log.clear(); reqs=0; }
-  bool should_fail(){ ++reqs; return failAt && (failFrom ? reqs>=failAt : reqs==failAt); }
+  bool should_fail(){ ++reqs; bool f= failAt && (failFrom ? reqs>=failAt : reqs==failAt); if(f) ++refused; return f; }
   std::string jlog() const; size_t outstanding() const { return live.size(); }
   void release_all();
 };
